@@ -29,11 +29,11 @@ G4_FCFG = {"salt": "g4-salt", "pp": None, "pa": ["1.1.1.0/24"], "B4": 8, "B6": 8
 
 def cases(ctx):
     rng = ctx.rng
-    for fcfg in ipref.file_configs(rng, ctx.per_shard(ctx.pick(60, 4000)), quick=ctx.quick):
-        yield {"kind": "labelled", "fcfg": fcfg, "lseed": rng.getrandbits(32), "nlines": 40}
     yield {"kind": "g4", "what": "pieces", "maxlen": ctx.pick(4, 5)}
     yield {"kind": "g4", "what": "chars1", "maxlen": ctx.pick(7, 8)}
     yield {"kind": "g4", "what": "chars2", "maxlen": ctx.pick(8, 9)}
+    for fcfg in ipref.file_configs(rng, ctx.per_shard(ctx.pick(240, 6000)), quick=ctx.quick):
+        yield {"kind": "labelled", "fcfg": fcfg, "lseed": rng.getrandbits(32), "nlines": 40}
 
 
 def gen_lines(rng, fcfg, n):
